@@ -19,7 +19,7 @@ SEP = '\x1b'
 # ------------------------------------------------------------------------------------------------ values
 PLAIN = 'abcdefghijklmnopqrstuvwxyzABCDEFGHIJKLMNOPQRSTUVWXYZ0123456789_'
 NASTY = ['"', '\\', '\n', '\t', "'", ' ', '  ', '{', '}', '[', ']', '//', '/*', '$', ',', ';', ':', '\r', '\x0b', '\x08',
-         '\x0c', '\x07', '\\n', '\\"', '"\\', 'é', '中', '\U0001f600', '?', '/', '=', '(', ')', '#', '%', '\x7f', '+', '-', '.']
+         '\x0c', '\x07', '\\n', '\\"', '"\\', 'é', '中', 'Ж', '©', '€', '\U0001f600', '?', '/', '=', '(', ')', '#', '%', '\x7f', '+', '-', '.']
 
 
 def rword(rng: random.Random, lo: int = 1, hi: int = 8) -> str:
@@ -320,6 +320,67 @@ def gen_spec(rng: random.Random, size: str = 'm') -> dict:
     return spec
 
 
+HIST_CONTAINERS = ('brushes', 'entities', 'visgroups', 'groups', 'cameras', 'cordons')
+HIST_ENT_CONTAINERS = ('outputs', 'fixups', 'solids')
+
+
+def gen_history_spec(rng: random.Random) -> dict:
+    """A specification with a history: the base map is built, exported and parsed; then spec['history']['edits'] is added to the
+    PARSED map through the public API.  Each container the API can add to is empty in the base map with probability 0.6 (so the
+    parsed map holds whatever VMF.parse / Entity.parse leave there for an empty container) and receives at least one element."""
+    base = gen_spec(rng, 's')
+    donor = gen_spec(rng, 's')
+    nasty = rng.choice([0.0, 0.3, 0.6])
+    base['ids'] = None        # (the base map is exported in full whatever opts['minimal'] says; the option applies to the exports after the edits)
+    emptied = [c for c in HIST_CONTAINERS if rng.random() < 0.6]
+    for c in emptied:
+        base[c] = []
+    # format limits (see docs): "cordons enabled" without a cordon and "active camera" without a camera are not written
+    if not base['cordons']:
+        base['settings']['cordon_enabled'] = False
+    if not base['cameras']:
+        base['settings']['active_cam'] = -1
+    for e in base['entities']:
+        for c in HIST_ENT_CONTAINERS:
+            if rng.random() < 0.5:
+                e[c] = []
+    fresh = {
+        'brushes': lambda: gen_solid(rng, nasty, 3, 3, True, 0.1),
+        'entities': lambda: gen_entity(rng, nasty, 3, 3, 0.1),
+        'visgroups': lambda: {'name': rstr(rng, nasty), 'color': rcolor(rng), 'children': []},
+        'groups': lambda: {'shown': rng.random() < 0.7, 'auto_shown': rng.random() < 0.7, 'color': rcolor(rng)},
+        'cameras': lambda: [rvec(rng), rvec(rng)],
+        'cordons': lambda: {'name': rstr(rng, nasty), 'mins': rvec(rng), 'maxs': rvec(rng), 'active': rng.random() < 0.6},
+    }
+    edits: dict[str, Any] = {}
+    for c in HIST_CONTAINERS:
+        items = donor[c][:2]
+        if not items and (c in emptied or rng.random() < 0.3):
+            items = [fresh[c]()]
+        edits[c] = items
+    for e in edits['entities']:
+        if e['logical_pos'] is None:      # the default position is derived from the ID, which differs between the two maps
+            e['logical_pos'] = '[0 %d]' % rng.randint(0, 9999)
+    edits['ent_edits'] = []
+    for i in range(min(2, len(base['entities']))):
+        ed: dict[str, Any] = {'index': i}
+        if rng.random() < 0.7:
+            ed['outputs'] = [gen_output(rng, nasty) for _ in range(rng.randint(1, 2))]
+        if rng.random() < 0.7:
+            ed['fixups'] = [[rword(rng) + str(i), rstr(rng, nasty)]]
+        if rng.random() < 0.7:
+            ed['solids'] = [gen_solid(rng, nasty, 0, 0, False, 0.1)]
+        edits['ent_edits'].append(ed)
+    edits['removals'] = {'brushes': [rng.randrange(8)] if rng.random() < 0.3 else [],
+                         'entities': [rng.randrange(8)] if rng.random() < 0.3 else []}
+    base['history'] = {
+        'emptied': emptied, 'edits': edits,
+        'api': {'brush': rng.choice(['add_brush', 'add_brushes', 'append']), 'ent': rng.choice(['add_ent', 'add_ents', 'create_ent']),
+                'vis': rng.choice(['append', 'create'])},
+    }
+    return base
+
+
 class Timeout(Exception):
     """A call into the implementation did not return in time (a fault that makes it loop): treated as a failing input."""
 
@@ -510,12 +571,23 @@ def apply_set_history(ids: list[int], hist: list[int]) -> set:
     return s
 
 
+def collect_vis_ids(vmf) -> list[int]:
+    """IDs of the visgroups of a map in the order `populate` numbers them (children before their parent)."""
+    out: list[int] = []
+
+    def walk(g) -> None:
+        for c in g.child_groups:
+            walk(c)
+        out.append(g.id)
+    for g in vmf.vis_tree:
+        walk(g)
+    return out
+
+
 def build(spec: dict):
     """Realise a specification through the public API. Returns the VMF."""
-    from srctools.vmf import (VMF, Entity, Solid, Side, Output, EntityGroup, VisGroup, Camera, Cordon, UVAxis, DispFlag,
-                              TriangleTag, Vec4, StrataInstanceVisibility, Strata2DViewport, Strata3DViewport)
+    from srctools.vmf import VMF, StrataInstanceVisibility, Strata2DViewport, Strata3DViewport
     from srctools.math import Vec, Angle
-    from array import array
     st = spec['settings']
     vmf = VMF(
         preserve_ids=False,
@@ -533,26 +605,52 @@ def build(spec: dict):
             else:
                 vps.append(Strata2DViewport(vp['axis'], vp['u'], vp['v'], vp['zoom']))
         vmf.strata_viewports = vps
-    vis_ids: list[int] = []
+    populate(vmf, spec)
+    ids = spec.get('ids')
+    if ids and ids.get('route') == 'object':
+        apply_ids_to_objects(vmf, ids)
+    return vmf
+
+
+def populate(vmf, spec: dict, api: dict | None = None) -> None:
+    """Add the content of a (partial) specification to an existing map through the public API.  `api` chooses between the
+    equivalent public ways of adding: brush: add_brush | add_brushes | append (to VMF.brushes); ent: add_ent | add_ents |
+    create_ent; vis: append (to VMF.vis_tree) | create (create_visgroup, for visgroups without children).
+    `spec['ent_edits']` edits entities the map already has: outputs (add_out), fixups, solids (appended to Entity.solids);
+    `spec['removals']` removes brushes (remove_brush / Solid.remove) and entities (remove_ent) by position afterwards."""
+    from srctools.vmf import (Entity, Solid, Side, Output, EntityGroup, VisGroup, Camera, Cordon, UVAxis, DispFlag,
+                              TriangleTag, Vec4)
+    from srctools.math import Vec
+    from array import array
+    api = api or {}
+    vis_ids: list[int] = collect_vis_ids(vmf)
+    old_ents = list(vmf.entities)
 
     def mk_vis(v: dict) -> VisGroup:
         kids = [mk_vis(c) for c in v['children']]
         g = VisGroup(vmf, v['name'], -1, Vec(v['color']), kids)
         vis_ids.append(g.id)
         return g
-    for v in spec['visgroups']:
-        vmf.vis_tree.append(mk_vis(v))
-    grp_ids: list[int] = []
-    for g in spec['groups']:
+    for v in spec.get('visgroups', ()):
+        if api.get('vis') == 'create' and not v['children']:
+            vis_ids.append(vmf.create_visgroup(v['name'], Vec(v['color'])).id)
+        else:
+            vmf.vis_tree.append(mk_vis(v))
+    grp_ids: list[int] = list(vmf.groups)
+    for g in spec.get('groups', ()):
         grp = EntityGroup(vmf, -1, g['shown'], g['auto_shown'], Vec(g['color']))
         vmf.groups[grp.id] = grp
         grp_ids.append(grp.id)
-    for pos, targ in spec['cameras']:
+    for pos, targ in spec.get('cameras', ()):
         Camera(vmf, Vec(pos), Vec(targ))
-    for c in spec['cordons']:
+    for c in spec.get('cordons', ()):
         Cordon(vmf, Vec(c['mins']), Vec(c['maxs']), c['active'], c['name'])
-    for k, v in spec['world_keys'].items():
+    for k, v in spec.get('world_keys', {}).items():
         vmf.spawn[k] = v
+
+    def mk_out(o: dict) -> Output:
+        return Output(o['out'], o['targ'], o['inp'], o['param'], o['delay'], times=o['times'],
+                      inst_out=o['inst_out'], inst_in=o['inst_in'], comma_sep=o['comma'])
 
     def apply_side(side: Side, e: dict | None) -> None:
         if e is None:
@@ -630,33 +728,74 @@ def build(spec: dict):
             solid.visgroup_ids = apply_set_history(vis_ids, s['vis'])
         return solid
 
-    for s in spec['brushes']:
-        vmf.add_brush(mk_solid(s))
-    node = 1
-    for e in spec['entities']:
+    brushes = [mk_solid(s) for s in spec.get('brushes', ())]
+    if api.get('brush') == 'add_brushes':
+        vmf.add_brushes(iter(brushes))
+    elif api.get('brush') == 'append':
+        for b in brushes:
+            vmf.brushes.append(b)
+    else:
+        for b in brushes:
+            vmf.add_brush(b)
+    node = 1 + sum(1 for e in old_ents if 'nodeid' in e)
+    new_ents = []
+    for e in spec.get('entities', ()):
         keys = dict(e['keys'])
         if keys.get('nodeid') == '__unique__':
             keys['nodeid'] = str(node)
             node += 1
-        ent = Entity(
-            vmf, keys=keys,
-            solids=[mk_solid(s) for s in e['solids']],
-            hidden=e['hidden'],
-            groups=apply_set_history(grp_ids, e['groups']) if (e['groups'] and grp_ids) else (),
-            vis_ids=apply_set_history(vis_ids, e['vis']) if (e['vis'] and vis_ids) else (),
-            vis_shown=e['vis_shown'], vis_auto_shown=e['vis_auto_shown'],
-            logical_pos=e['logical_pos'], editor_color=Vec(e['color']), comments=e['comments'],
-        )
+        solids = [mk_solid(s) for s in e['solids']]
+        groups = apply_set_history(grp_ids, e['groups']) if (e['groups'] and grp_ids) else ()
+        vis = apply_set_history(vis_ids, e['vis']) if (e['vis'] and vis_ids) else ()
+        if api.get('ent') == 'create_ent' and 'classname' in keys and e['logical_pos'] is not None:
+            rest = {k: v for k, v in keys.items() if k != 'classname'}
+            ent = vmf.create_ent(keys['classname'], **rest)
+            ent.solids.extend(solids)
+            ent.hidden = e['hidden']
+            ent.groups.update(groups)
+            ent.visgroup_ids.update(vis)
+            ent.vis_shown, ent.vis_auto_shown = e['vis_shown'], e['vis_auto_shown']
+            ent.logical_pos = e['logical_pos']
+            ent.editor_color = Vec(e['color'])
+            ent.comments = e['comments']
+        else:
+            ent = Entity(
+                vmf, keys=keys, solids=solids, hidden=e['hidden'], groups=groups, vis_ids=vis,
+                vis_shown=e['vis_shown'], vis_auto_shown=e['vis_auto_shown'],
+                logical_pos=e['logical_pos'], editor_color=Vec(e['color']), comments=e['comments'],
+            )
+            if api.get('ent') == 'add_ents':
+                new_ents.append(ent)
+            else:
+                vmf.add_ent(ent)
         for var, val in e['fixups']:
             ent.fixup[var] = val
         for o in e['outputs']:
-            ent.add_out(Output(o['out'], o['targ'], o['inp'], o['param'], o['delay'], times=o['times'],
-                               inst_out=o['inst_out'], inst_in=o['inst_in'], comma_sep=o['comma']))
-        vmf.add_ent(ent)
-    ids = spec.get('ids')
-    if ids and ids.get('route') == 'object':
-        apply_ids_to_objects(vmf, ids)
-    return vmf
+            ent.add_out(mk_out(o))
+    if new_ents:
+        vmf.add_ents(iter(new_ents))
+    for ed in spec.get('ent_edits', ()):
+        if not old_ents:
+            break
+        ent = old_ents[ed['index'] % len(old_ents)]
+        for o in ed.get('outputs', ()):
+            ent.add_out(mk_out(o))
+        for var, val in ed.get('fixups', ()):
+            ent.fixup[var] = val
+        for s in ed.get('solids', ()):
+            ent.solids.append(mk_solid(s))
+    # removals through the public API (after the additions): remove_brush / Solid.remove, remove_ent
+    rm = spec.get('removals') or {}
+    for i in rm.get('brushes', ()):
+        if vmf.brushes:
+            b = vmf.brushes[i % len(vmf.brushes)]
+            if i % 2:
+                b.remove()
+            else:
+                vmf.remove_brush(b)
+    for i in rm.get('entities', ()):
+        if vmf.entities:
+            vmf.remove_ent(vmf.entities[i % len(vmf.entities)])
 
 
 # ------------------------------------------------------------------------------------------------ observer
@@ -749,7 +888,7 @@ def obs_output(o) -> dict:
             'params': o.params, 'delay': Num(o.delay, 'g'), 'times': o.times, 'comma_sep': o.comma_sep}
 
 
-def obs_entity(e, opts: dict, world: bool = False) -> dict:
+def obs_entity(e, opts: dict, world: bool = False, solids: Any = None) -> dict:
     keys = dict(e._keys)
     if world:
         keys = {k: v for k, v in keys.items() if k.casefold() != 'mapversion'}
@@ -757,7 +896,7 @@ def obs_entity(e, opts: dict, world: bool = False) -> dict:
         'id': e.id, 'keys': keys,
         'fixups': sorted((f.id, f.var, f.value) for f in (e._fixup._fixup.values() if e._fixup is not None else ())),
         'outputs': [obs_output(x) for x in e.outputs],
-        'solids': [obs_solid(s, opts, world) for s in e.solids],
+        'solids': [obs_solid(s, opts, world) for s in (e.solids if solids is None else solids)],
         'editor_color': vec_c(e.editor_color), 'comments': e.comments,
     }
     if not world:
@@ -778,7 +917,9 @@ def observe(vmf, opts: dict) -> dict:
         'visgroups': [obs_vis(v) for v in vmf.vis_tree],
         'groups': {str(k): {'id': g.id, 'shown': g.shown, 'auto_shown': g.auto_shown, 'color': vec_c(g.color)}
                    for k, g in sorted(vmf.groups.items())},
-        'world': obs_entity(vmf.spawn, opts, True),
+        # the world brushes of a map are what its public view shows (VMF.brushes: add_brush / add_brushes / remove_brush /
+        # iter_wbrushes work on it); export() writes spawn.solids -- the two are meant to be one list object
+        'world': obs_entity(vmf.spawn, opts, True, solids=list(vmf.iter_wbrushes(world=True, detail=False))),
         'entities': [obs_entity(e, opts) for e in vmf.entities],
         'quickhide_count': vmf.quickhide_count,
     }
@@ -816,7 +957,11 @@ def diff(a: Any, b: Any, path: tuple = ()) -> Iterator[tuple[tuple, Any, Any]]:
                 yield from diff(a[k], b[k], path + (k,))
     elif isinstance(a, (list, tuple)) and isinstance(b, (list, tuple)):
         if len(a) != len(b):
+            # one cause, one key: after a difference in length the elements are misaligned (a lost solid shifts all later
+            # ones), comparing them pairwise only produces noise -- unless the elements are plain leaves (numbers of a row)
             yield path + ('len',), len(a), len(b)
+            if any(isinstance(x, (dict, list, tuple)) for x in list(a) + list(b)):
+                return
         for i, (x, y) in enumerate(zip(a, b)):
             yield from diff(x, y, path + (i,))
     elif type(a) is not type(b) or a != b:
@@ -918,14 +1063,20 @@ def text_diff_class(t1: str, t2: str) -> tuple[str, dict]:
     return cls, {'line': i + 1, 'first': a[:300], 'second': b[:300]}
 
 
-def renumber(text: str) -> str:
-    """Canonical renumbering of all IDs by first appearance per kind (for parse without preserve_ids)."""
+def renumber(text: str, positional: tuple = ()) -> str:
+    """Canonical renumbering of all IDs by first appearance per kind (for parse without preserve_ids).  Kinds listed in
+    `positional` (kinds that are never referred to by number: ent, solid, face) are numbered by the position of the defining
+    line instead, so that two texts can be compared whatever numbers -- repeated ones included -- their objects carry."""
     stack: list[str] = []
     last = ''
     maps: dict[str, dict[str, int]] = {}
+    count: dict[str, int] = {}
     out = []
 
     def ren(kind: str, val: str) -> str:
+        if kind in positional:
+            count[kind] = count.get(kind, 0) + 1
+            return str(count[kind])
         m = maps.setdefault(kind, {})
         return str(m.setdefault(val, len(m) + 1))
     for line in text.split('\n'):
@@ -983,6 +1134,7 @@ def check_vmf(vmf, opts: dict) -> list[tuple[str, str, dict]]:
     except Exception as e:
         return [('parse-error:' + err_class(e), f'parsing the exported text raised {type(e).__name__}: {e}', {'text_len': len(t1)})]
     after = observe(v2, opts)
+    alt = alt_forms(vmf, t1, after, opts)      # before `after` is normalised below
     seen = set()
     # Entities that merely changed their order are reported once as such and then compared pairwise. Candidate
     # alignments: by ID (when the IDs survived) and "visible first, then hidden" (the two-pass reader); the one that
@@ -1037,6 +1189,7 @@ def check_vmf(vmf, opts: dict) -> list[tuple[str, str, dict]]:
         seen.add(pc)
         out.append(('field:' + pc, f'field {".".join(map(str, path))} differs after export->parse: {a!r} became {b!r}',
                     {'path': list(path), 'before': repr(a)[:300], 'after': repr(b)[:300]}))
+    out.extend(alt)
     try:
         t2 = export_text(v2, opts)
     except Exception as e:
@@ -1059,6 +1212,49 @@ def check_vmf(vmf, opts: dict) -> list[tuple[str, str, dict]]:
     return out
 
 
+def alt_forms(vmf, t1: str, after: dict, opts: dict) -> list[tuple[str, str, dict]]:
+    """The other public forms of the same two calls (round 5): export INTO a file object must write what export() returns as
+    a string, and VMF.parse(<file name>) must give the map VMF.parse(<Keyvalues tree>) gives.  The file-name form opens the
+    file as cp1251 text with universal newlines: it is exercised when the text is encodable and holds no bare CR."""
+    import os
+    import tempfile
+    from srctools.vmf import VMF
+    out: list[tuple[str, str, dict]] = []
+    try:
+        buf = io.StringIO()
+        ret = vmf.export(buf, inc_version=False, minimal=opts.get('minimal', False), disp_multiblend=opts.get('disp_multiblend', True))
+        if ret is not None or buf.getvalue() != t1:
+            cls, det = text_diff_class(t1, buf.getvalue()) if buf.getvalue() != t1 else ('return-value', {'line': 0, 'first': 'None', 'second': repr(ret)[:80]})
+            out.append(('export:file-object-form:' + cls, 'VMF.export(file) wrote something else than VMF.export() returns: '
+                        f'line {det["line"]}: {det["first"]!r} became {det["second"]!r}', det))
+    except Exception as e:
+        out.append(('export-error:file-object-form:' + err_class(e), f'VMF.export(file) raised {type(e).__name__}: {e}', {}))
+    try:
+        data = t1.encode('cp1251')
+    except UnicodeEncodeError:
+        return out
+    if '\r' in t1 or len(t1) % 2:        # every other text (by the parity of its length: deterministic), to keep the quick tier cheap
+        return out
+    try:
+        with tempfile.TemporaryDirectory(dir='/var/tmp', prefix='c06_file_') as d:
+            path = os.path.join(d, 'map.vmf')
+            with open(path, 'wb') as fh:
+                fh.write(data)
+            v3 = VMF.parse(path, preserve_ids=opts.get('preserve_ids', False))
+    except Exception as e:
+        out.append(('parse-error:file-name-form:' + err_class(e), f'VMF.parse(<file name>) raised {type(e).__name__}: {e} '
+                    '(VMF.parse(<Keyvalues tree>) of the same text works)', {}))
+        return out
+    seen = set()
+    for path_, a, b in diff(after, observe(v3, opts)):
+        pc = path_class(path_)
+        if pc not in seen:
+            seen.add(pc)
+            out.append(('parse:file-name-form:' + pc, f'VMF.parse(<file name>) and VMF.parse(<Keyvalues tree>) of the same text differ in '
+                        f'{".".join(map(str, path_))}: {b!r} instead of {a!r}', {'path': list(path_)}))
+    return out
+
+
 SPEC_LIMIT = 150      # seconds per specification; the largest generated map takes about 2 s on a loaded machine
 
 
@@ -1072,7 +1268,48 @@ def check_spec(spec: dict) -> list[tuple[str, str, dict]]:
         return [('hang:round-trip', f'building / exporting / parsing the map did not finish: {e}', {})]
 
 
+def _check_history(spec: dict) -> list[tuple[str, str, dict]]:
+    """History  build -> export -> parse -> API edits -> export -> parse.  The map under test is the PARSED map after the
+    edits of spec['history'] (made through the public API, starting from containers that are typically empty in the parsed
+    map); the reference is the map built through the API that received the same edits.  Oracles: both export the same text
+    (after canonical renumbering), and the ordinary round-trip oracles on the edited parsed map."""
+    hist = spec['history']
+    opts = spec['opts']
+    try:
+        ref = build(spec)
+        t0 = export_text(ref, dict(opts, minimal=False))
+        populate(ref, hist['edits'], hist.get('api'))
+        tr = export_text(ref, opts)
+    except Exception as e:   # the public API refused the specification: not a round-trip matter
+        return [('build-error:' + err_class(e), f'building the reference map raised {type(e).__name__}: {e}', {})]
+    try:
+        test = parse_text(t0, opts)
+    except Exception as e:
+        return [('parse-error:' + err_class(e), f'parsing the exported text raised {type(e).__name__}: {e}', {'text_len': len(t0)})]
+    try:
+        populate(test, hist['edits'], hist.get('api'))
+    except Exception as e:
+        return [('history:edit-error:' + err_class(e), f'API edits that work on the map built through the API raised on the parsed map: '
+                 f'{type(e).__name__}: {e}', {})]
+    out: list[tuple[str, str, dict]] = []
+    try:
+        tt = export_text(test, opts)
+    except Exception as e:
+        return [('export-error:' + err_class(e), f'VMF.export of the edited parsed map raised {type(e).__name__}: {e}', {})]
+    # entity / solid / face numbers are compared by position: which number a NEW object gets is the ID managers' business
+    # (C08), not content of the map; group and visgroup numbers are referred to by members and are renumbered by value
+    pos = ('ent', 'solid', 'face')
+    a, b = NEGZERO.sub('0', renumber(tr, pos)), NEGZERO.sub('0', renumber(tt, pos))
+    if a != b:
+        cls, det = text_diff_class(a, b)
+        out.append(('history:text:' + cls.rsplit(':', 1)[0], 'the same API edits on the map built through the API and on the parsed map export differently '
+                    f'(parse, then add, then export): line {det["line"]}: {det["first"]!r} (built) became {det["second"]!r} (parsed)', det))
+    return out + check_vmf(test, opts)
+
+
 def _check_spec(spec: dict) -> list[tuple[str, str, dict]]:
+    if spec.get('history'):
+        return _check_history(spec)
     try:
         vmf = build(spec)
     except Exception as e:   # the public API refused the specification: not a round-trip matter
